@@ -74,6 +74,7 @@ type State struct {
 	heaps  map[string]string
 	alloc  string
 	defers []*deferRec
+	region *State // the state right after the most recent lock acquisition on this path
 }
 
 func (s *State) clone() *State {
@@ -82,6 +83,7 @@ func (s *State) clone() *State {
 		n.heaps[k] = v
 	}
 	n.defers = append([]*deferRec{}, s.defers...)
+	n.region = s.region
 	return n
 }
 
@@ -547,6 +549,27 @@ func (vc *VC) mergeStates(conds []string, sts []*State) *State {
 		out.heaps[k] = mergeTerm(func(s *State) string { return vc.heapGet(s, k) }, vc.heapSort[k], k)
 	}
 	out.alloc = mergeTerm(func(s *State) string { return s.alloc }, sInt, "alloc")
+	// region states: merged like the states themselves
+	{
+		allHave, same := true, true
+		for _, s := range sts {
+			if s.region == nil {
+				allHave = false
+			}
+			if s.region != sts[0].region {
+				same = false
+			}
+		}
+		if allHave && same {
+			out.region = sts[0].region
+		} else if allHave {
+			var rs []*State
+			for _, s := range sts {
+				rs = append(rs, s.region)
+			}
+			out.region = vc.mergeStates(conds, rs)
+		}
+	}
 	seen := map[*deferRec]bool{}
 	for _, s := range sts {
 		for _, d := range s.defers {
